@@ -343,45 +343,6 @@ impl Drop for StdoutCapture {
     }
 }
 
-fn thread_count() -> usize {
-    std::fs::read_dir("/proc/self/task").map(|d| d.count()).unwrap_or(0)
-}
-
-/// Number of threads of this process when no baton thread and no default-logger printer
-/// thread exists (main + watchdog, measured once).
-fn baseline_threads() -> usize {
-    static BASE: std::sync::OnceLock<usize> = std::sync::OnceLock::new();
-    *BASE.get_or_init(|| {
-        normalise_global();
-        let mut last = thread_count();
-        // settle: wait until the count has been stable for 50 ms
-        for _ in 0..200 {
-            std::thread::sleep(Duration::from_millis(50));
-            let c = thread_count();
-            if c == last {
-                break;
-            }
-            last = c;
-        }
-        last
-    })
-}
-
-/// The default logger's printer threads are spawned inside the crate and cannot be joined;
-/// once their sender is dropped they print what is queued and exit. Waiting for the thread
-/// count to return to the baseline makes "everything has been printed" a fact, not a guess.
-fn wait_for_printers_to_exit() -> bool {
-    let base = baseline_threads();
-    let start = Instant::now();
-    while thread_count() > base {
-        if start.elapsed() > Duration::from_secs(60) {
-            return false;
-        }
-        std::thread::sleep(Duration::from_micros(100));
-    }
-    true
-}
-
 /// Puts the process-wide logger into the `None` state whatever an earlier run left behind.
 fn normalise_global() {
     let (s, _r) = sync_channel::<LogEvent>(1);
@@ -404,12 +365,7 @@ fn gen_tags(max: u32) -> Vec<(&'static str, Val)> {
 }
 
 fn scenario(cfg: &RunCfg) -> Outcome {
-    let _ = baseline_threads();
     normalise_global();
-    // no printer thread of an earlier run may still be alive when fd 1 is redirected
-    if !wait_for_printers_to_exit() {
-        return Outcome { harness_error: Some("default-logger printer threads of an earlier run did not exit".into()), ..Default::default() };
-    }
     let nthreads = 1 + gen::below(8) as usize;
     let nops = 4 + gen::below(40) as usize;
     let cap = nops * 3 + 16;
@@ -647,20 +603,22 @@ fn scenario(cfg: &RunCfg) -> Outcome {
     }
     drop(guard);
     normalise_global(); // a Default logger's sender is dropped here: its thread drains and exits
-    let printers_done = wait_for_printers_to_exit();
     if let Some(cap) = capture.as_mut() {
-        if !printers_done {
-            outcome = Some(Outcome { harness_error: Some("default-logger printer threads did not exit".into()), ..Default::default() });
-        }
         if outcome.is_none() {
-            // every printer thread has exited: whatever was logged to stdout is in the pipe now
-            let lines = cap.read_lines(0, Duration::from_secs(1));
+            // The printer threads are real and unsynchronised: wait until as many lines as
+            // the model expects have arrived (a lost event shows up as a time-out here).
+            let lines = cap.read_lines(stdout_expected.len(), Duration::from_secs(30));
             // The human-readable stdout format is not part of the property: every expected
             // event must be found in exactly one line that carries its level and all its
             // tag names and values, in order; no line may be left over.
             let mut unused: Vec<&String> = lines.iter().collect();
             let mut missing = None;
-            for ev in &stdout_expected {
+            // Lines of different printer threads arrive in an order the OS decides, and a
+            // short pattern can also match a longer event's line: assign the most specific
+            // (longest) patterns first and give each the shortest line that carries it.
+            let mut by_specificity: Vec<&ExpEvent> = stdout_expected.iter().collect();
+            by_specificity.sort_by_key(|e| std::cmp::Reverse(e.tags.iter().map(|(n, v)| n.len() + v.as_ref().map(|x| x.len()).unwrap_or(0)).sum::<usize>()));
+            for ev in by_specificity {
                 let matches = |l: &str| -> bool {
                     if !l.contains(ev.level) {
                         return false;
@@ -680,7 +638,8 @@ fn scenario(cfg: &RunCfg) -> Outcome {
                     }
                     true
                 };
-                match unused.iter().position(|l| matches(l)) {
+                let best = unused.iter().enumerate().filter(|(_, l)| matches(l)).min_by_key(|(_, l)| l.len()).map(|(i, _)| i);
+                match best {
                     Some(i) => {
                         unused.remove(i);
                     }
